@@ -225,6 +225,7 @@ func (r *recorder) take() []string {
 type EngineSpec struct {
 	Backend  string `json:"backend"`           // vm | vmcall | closure | interp
 	UserFuns bool   `json:"user_funs,omitempty"` // register tracing / lazy / poly user functions and a custom operator
+	Tag      int    `json:"tag,omitempty"`       // != 0: this engine also registers tag(x) = x + Tag, a function that is DIFFERENT on every engine that has one
 }
 
 var backends = []string{"vm", "vmcall", "closure", "interp"}
@@ -296,6 +297,12 @@ func buildEngine(spec EngineSpec, rec recFn) *yae.Expr {
 	}
 	if spec.UserFuns {
 		registerUserFuns(e, rec)
+	}
+	if spec.Tag != 0 {
+		add := float64(spec.Tag)
+		e.RegisterFun(val.Fun(types.Fun("tag", []*types.Type{types.Num}, types.Num), func(args ...*val.Val) *val.Val {
+			return val.Num(args[0].Num().V + add)
+		}))
 	}
 	return e
 }
